@@ -40,7 +40,7 @@ def cases(draw):
         # an axis that expands under compression (negative linear compressibility) has a negative strain fraction:
         # the relation then gives a negative gap for the off-diagonal components that involve it
         ej = [-x for x in ej]
-    return dict(s, kind=kind, ei=ei, ej=ej)
+    return dict(s, kind=kind, ei=ei, ej=ej, adiabatic_first=draw(st.booleans()))
 
 
 def oracle(ctx, full):
@@ -59,8 +59,17 @@ def oracle(ctx, full):
         warnings.simplefilter("ignore")
         cls = Lon if full["kind"] == "longitudinal" else Off
         obj = ctx.observe(cls, duck, (ei, ej), _bucket="C02/ctor", _case=case)
-        iso = ctx.observe(lambda: np.array(obj.value_isothermal), _bucket="C02/iso-crash", _case=case)
-        adi = ctx.observe(lambda: np.array(obj.value_adiabatic), _bucket="C02/adi-crash", _case=case)
+        if full.get("adiabatic_first"):
+            # the order in which the two values are read from one object must not matter
+            adi = ctx.observe(lambda: np.array(obj.value_adiabatic), _bucket="C02/adi-crash", _case=case)
+            iso = ctx.observe(lambda: np.array(obj.value_isothermal), _bucket="C02/iso-crash", _case=case)
+            fresh = cls(DuckCalculator(full), (ei, ej))
+            iso_fresh = np.array(fresh.value_isothermal)
+            if not np.array_equal(iso, iso_fresh, equal_nan=True):
+                raise PropertyViolation("C02/%s/read-order" % full["kind"], "isothermal value read after the adiabatic one differs from a fresh object's", case)
+        else:
+            iso = ctx.observe(lambda: np.array(obj.value_isothermal), _bucket="C02/iso-crash", _case=case)
+            adi = ctx.observe(lambda: np.array(obj.value_adiabatic), _bucket="C02/adi-crash", _case=case)
     gap = adi - iso
     want = T[:, None] * V[None, :] * ref["dPdT"] ** 2 / (9 * (ei * ej)[None, :] * cv)
     scale = T[:, None] * V[None, :] * ref["dPdT_abs"] ** 2 / (9 * np.abs(ei * ej)[None, :] * cv)
